@@ -29,7 +29,8 @@ MECHANISMS = ["jaxley.modules.base:Module.insert", "jaxley.modules.base:Module.d
               "jaxley.modules.base:Module.delete_trainables", "jaxley.modules.base:Module.delete_clamps", "jaxley.modules.base:Module.delete_recordings",
               "jaxley.modules.base:Module.to_jax", "jaxley.modules.base:Module.get_all_parameters", "jaxley.modules.base:Module.init_states"]
 MECHANISMS_REQUIRED = MECHANISMS[:9]
-REQUIRED = {"quick": {"R6": 1200, "undo": 60, "refsim_equiv": 300}, "thorough": {"R6": 60000, "undo": 1500, "refsim_equiv": 6000}}
+REQUIRED = {"quick": {"R6": 1200, "undo": 60, "refsim_equiv": 300},
+            "thorough": {"R6": 6000, "undo": 300, "refsim_equiv": 1500}}
 WALL_BUDGET = {"quick": 1500, "thorough": 5 * 3600}
 
 MODULES = {
